@@ -605,3 +605,56 @@ def run_cli(argv, stdin_text=None):
 def run_node(script_path, timeout=60):
     p = subprocess.run(['node', script_path], capture_output=True, text=True, timeout=timeout)
     return p.returncode, p.stdout, p.stderr
+
+
+# ---------------------------------------------------------------------------
+# built-in backends with the arguments they need
+
+CA_SWIFT = json.dumps({"upload": [["upload", [["input", "d", "Data", "doc"]]]],
+                       "download": [["download_file", [["dest", "d", "URL", "doc"]]], ["download_memory", []]]})
+CA_OBJC = json.dumps({"upload": [["upload", ["", [["input", "d", "NSData *", "doc"]]]]],
+                      "download": [["download_file", ["", [["dest", "d", "NSURL *", "doc"]]]], ["download_memory", ["", []]]]})
+STYLE_TO_REQUEST = json.dumps({"rpc": "RpcRequest", "upload": "UploadRequest", "download": "DownloadRequest",
+                               "download_file": "DownloadRequestFile", "download_memory": "DownloadRequestMemory"})
+
+BACKEND_RUNS = {
+    'python_types': ['-p', 'pkg'],
+    'python_type_stubs': ['-p', 'pkg'],
+    'python_client': ['-m', 'client', '-c', 'C', '-t', 'pkg'],
+    'js_client': ['r.js'],
+    'js_types': ['t.js'],
+    'tsd_types': ['tpl.d.ts'],
+    'tsd_client': ['ctpl.d.ts', 'c.d.ts'],
+    'swift_types': [],
+    'obj_c_types': [],
+    'swift_client': ['-m', 'M', '-c', 'C', '-t', 'T', '-y', CA_SWIFT, '-z', STYLE_TO_REQUEST],
+    'obj_c_client': ['-m', 'M', '-c', 'C', '-t', 'T', '-y', CA_OBJC, '-z', STYLE_TO_REQUEST, '-w', 'user'],
+}
+TEMPLATES = {'tpl.d.ts': '/*TYPES*/\n', 'ctpl.d.ts': '/*ROUTES*/\n'}
+
+
+def backend_outputs(api, names=None, args_override=None, manifest=False):
+    """Run built-in backends on (a deep copy is NOT made: backends that strip aliases copy internally) api.
+
+    Returns {name: {'files': {relpath: bytes}} | {'crash': identity, 'tb': text}}"""
+    out = {}
+    for name in (names or BACKEND_RUNS):
+        d = fresh_dir('be')
+        try:
+            for fn, content in TEMPLATES.items():
+                with open(os.path.join(d, fn), 'w') as f:
+                    f.write(content)
+            args = (args_override or {}).get(name, BACKEND_RUNS[name])
+            b = run_backend(api, name, args, d, manifest=manifest)
+            if not b.ok:
+                out[name] = {'crash': b.identity, 'tb': b.tb}
+            else:
+                files = read_tree(d)
+                for fn in TEMPLATES:
+                    files.pop(fn, None)
+                out[name] = {'files': files}
+                if manifest:
+                    out[name]['manifest'] = b.manifest
+        finally:
+            shutil.rmtree(d, ignore_errors=True)
+    return out
